@@ -338,6 +338,8 @@ class Flags:
                 self.h_copied.add(created)
         elif name in BULK_OPS:
             self.h_copied.add(o)   # hydrogens of aromatic atoms are not rule-based
+            self.renumbered.add(o)  # bulk edits are exercised for their keep flags (memoised values); whether they
+            #                         relabel (fix_resonance moves bond orders without calc_labels) is C14's question
         elif name in RELABEL_OPS and exc is None:
             self.renumbered.discard(o)
 
